@@ -429,6 +429,76 @@ theorem C06_partial_error_nonnil (t : Thread) (h : raises t = true) (n : Nat) (h
   | none => simp [raises] at hc
   | some e => exact ⟨e, rfl⟩
 
+/-! ### 5b. Evaluations on a VM that has been used before
+
+`Run`, `Call` and `RunCode` all go through `start()`; `restart` is the main thread it
+leaves behind, for ANY earlier state of the VM (`t` is universally quantified: whatever
+ran before, with the same context or another one, ended normally, by the poll, with an
+error; whether the context fired before, during or between the earlier evaluations). -/
+
+/-- `restart_is_fresh`: an evaluation started on a used VM (without the `RunCode` race)
+    begins in exactly the state a fresh `Run(ctx)` begins in — `halt` cleared, a watcher
+    armed for the context given NOW, no frames.  So everything proved from `init p`
+    (sections 2–5) holds for every later evaluation on the same VM, and the oracle's answer
+    for a `rerun` request is the one for `run`. -/
+theorem restart_is_fresh (t : Thread) (p : Prog) (h0 : t.id = 0) :
+    [restart false t p] = (init p).threads := by
+  obtain ⟨id, halt, armed, st, frames⟩ := t
+  simp only at h0
+  subst h0
+  rfl
+
+/-- the state after `start()` does not depend on the history of the VM at all -/
+theorem restart_independent_of_history (lost : Bool) (t t' : Thread) (p : Prog) (h : t.id = t'.id) :
+    restart lost t p = restart lost t' p := by
+  obtain ⟨id, halt, armed, st, frames⟩ := t
+  obtain ⟨id', halt', armed', st', frames'⟩ := t'
+  simp only at h
+  subst h
+  rfl
+
+/-- `C06_reuse_main_stops`: for every earlier state of the VM and every program, once the
+    context has fired (before this start, while the VM was idle, during an earlier
+    evaluation, or now) and the watcher armed by THIS start has run, the evaluation ends
+    within `potT` of its own steps — re-supplying a context the VM has already seen, fired or
+    not, is no different from supplying a new one. -/
+theorem C06_reuse_main_stops (t : Thread) (p : Prog) (n : Nat)
+    (hn : potT (fireT (restart false t p)) ≤ n) :
+    (iter n (fireT (restart false t p))).st.isFin = true :=
+  halted_thread_finishes _ (by simp [fireT, restart]) n hn
+
+/-- What the property demands of every entry point: whichever way the evaluation is started
+    (`e`), on a VM in whatever state (`t`), whether or not the context had fired before the
+    start (`firedBefore`), and whichever way the races inside the start go (`lost`, possible
+    only where `canLose` says so): once the context has fired the evaluation ends. -/
+def C06_full_reuse : Prop :=
+  ∀ (e : Entry) (firedBefore lost : Bool), (lost = true → canLose e firedBefore = true) →
+    ∀ (t : Thread) (p : Prog), ∃ n, (iter n (fireT (restart lost t p))).st.isFin = true
+
+/-- `C06_counterexample_runcode_reset`: the code as it is violates it.  `RunCode(ctx, for {})`
+    on a used VM with a context that has already fired: `start()` arms the watcher, the
+    watcher stores `halt := 1` and exits, `resetForNewCode()` stores `halt := 0` — the loop
+    polls a flag nobody will ever set. -/
+theorem C06_counterexample_runcode_reset : ¬ C06_full_reuse := by
+  intro h
+  obtain ⟨n, hn⟩ := h .runCode true true (fun _ => rfl) usedMain .spin
+  have := unhalted_loop_never_ends (fireT (restart true usedMain .spin)) rfl rfl n
+  rw [this] at hn
+  exact absurd hn (by simp)
+
+/-- `C06_partial_reuse`: outside that race — every `Run`, every `Call`, and `RunCode` with a
+    context that had not fired before the start — the statement holds, with the bound. -/
+theorem C06_partial_reuse (e : Entry) (firedBefore lost : Bool)
+    (hl : lost = true → canLose e firedBefore = true) (hg : canLose e firedBefore = false)
+    (t : Thread) (p : Prog) :
+    (iter (potT (fireT (restart lost t p))) (fireT (restart lost t p))).st.isFin = true := by
+  have hlost : lost = false := by
+    cases lost with
+    | false => rfl
+    | true => rw [hl rfl] at hg; exact absurd hg (by simp)
+  subst hlost
+  exact C06_reuse_main_stops t p _ (Nat.le_refl _)
+
 /-! ### 6. Non-vacuity -/
 
 /-- the guard of `C06_partial` admits programs with loops, callbacks, every blocking
@@ -463,5 +533,14 @@ example : noLossy (.spawn 1 (.cb .each .spin .done) (.block .recv (.compute .spi
 /-- without a cancellation nothing is stopped: a blocked thread stays blocked, a loop loops -/
 example : (exec implCfg (init (.block .recv .done)) [.step 0, .step 0, .fire 0, .step 0]).threads
     = [{ id := 0, halt := false, armed := true, st := .blocked .recv .done, frames := [] }] := by decide
+
+/-- the guard of `C06_partial_reuse` is satisfiable for every entry point, and the race of
+    the counterexample needs exactly `RunCode` + a context fired before the start -/
+example : canLose .run true = false ∧ canLose .call true = false ∧ canLose .runCode false = false
+    ∧ canLose .runCode true = true := by decide
+
+/-- a used VM stopped by the poll, started again with the (fired) context: halted again
+    after the new watcher ran, ends with the context's error -/
+example : (iter 3 (fireT (restart false usedMain .spin))).st = .fin (some .ctx) := by decide
 
 end Risor.C06
